@@ -123,6 +123,7 @@ def run_case(case: dict) -> CaseResult:
     res = CaseResult()
     s = Session(noise=bool(case.get("noise")), keepalive=512.0, auto=set())
     env = s.env
+    late: list[str] = []
     got: dict[str, list] = {}        # subscription id -> events actually delivered
     exp: dict[str, list] = {}        # subscription id -> events expected
     subs: dict[str, dict] = {}       # live model subscriptions
@@ -305,8 +306,11 @@ def run_case(case: dict) -> CaseResult:
     async def then(sess: Session):
         tr = sess.dsess.transport
         dead_kinds: set[str] = set()
-        misalign = int(case.get("misalign", 0))
+        misalign = case.get("misalign", 0)
+        mis_list = list(misalign) if isinstance(misalign, list) else ([int(misalign)] if misalign else [])
+        n_mis = [0]
         skipped = [0]
+        enc_cache: dict = {}
         for si, step in enumerate(case["steps"]):
             if sess.conn.connection_state.name != "CONNECTED":
                 break
@@ -336,24 +340,32 @@ def run_case(case: dict) -> CaseResult:
                     classes.add("redundant_unsub")
                     h()
             elif op == "chunk":
-                data = b"".join(sess.dsess.encode(build_msg(m)) for m in step["msgs"])
-                if misalign and not case.get("noise"):
-                    # TCP reads not aligned to frames (plaintext): this read ends `misalign` bytes into the first frame
-                    # of the next chunk step, whose remaining bytes arrive at that step -- delivery instants unchanged
+                # (frames are encoded once, in stream order -- over Noise the nonce sequence depends on it)
+                frames_ = enc_cache.pop(si, None) or [sess.dsess.encode(build_msg(m)) for m in step["msgs"]]
+                data = b"".join(frames_)
+                if mis_list:
+                    # TCP reads not aligned to frames: this read ends `misalign` bytes into the first frame of the next
+                    # chunk step, whose remaining bytes arrive at that step -- delivery instants unchanged
                     data = data[skipped[0]:]
                     skipped[0] = 0
-                    nxt = next((st2 for st2 in case["steps"][si + 1:] if st2["op"] == "chunk"), None)
-                    if nxt is not None:
-                        nd = b"".join(sess.dsess.encode(build_msg(m)) for m in nxt["msgs"])
-                        first = sess.dsess.encode(build_msg(nxt["msgs"][0])) if nxt["msgs"] else b""
-                        skipped[0] = max(0, min(misalign, len(first) - 1))  # never a complete frame ahead of its step
-                        data += nd[:skipped[0]]
+                    nj = next((j for j in range(si + 1, len(case["steps"])) if case["steps"][j]["op"] == "chunk"), None)
+                    if nj is not None and case["steps"][nj]["msgs"]:
+                        enc_cache[nj] = [sess.dsess.encode(build_msg(m)) for m in case["steps"][nj]["msgs"]]
+                        k_ = mis_list[n_mis[0] % len(mis_list)]
+                        n_mis[0] += 1
+                        skipped[0] = max(0, min(k_, len(enc_cache[nj][0]) - 1))  # never a complete frame ahead of its step
+                        data += b"".join(enc_cache[nj])[:skipped[0]]
                         classes.add("reads_not_aligned_to_frames")
                 for m in step["msgs"]:
                     if {"adv": "adv", "rawadv": "rawadv", "connfree": "connfree", "va_req": "va", "va_audio": "va", "va_fin": "va"}.get(m["t"]) in dead_kinds:
                         classes.add("unsub_then_message")
                     model_msg(m)
                 tr.feed(data)
+                # "each message produces ... a callback": when the read that completes the message has been processed,
+                # not whenever enough later bytes have piled up (synchronous subscriptions only; voice-assistant handlers are tasks)
+                for sid_, sub_ in subs.items():
+                    if sub_["kind"] != "va" and not sub_["dead"] and sess.conn.connection_state.name == "CONNECTED" and len(got.get(sid_, [])) < len(exp.get(sid_, [])) and not late:
+                        late.append(f"subscription {sid_} ({sub_['kind']}): {len(got.get(sid_, []))} callbacks when the read completing message #{len(exp[sid_])} had been processed")
             elif op == "yield":
                 await asyncio.sleep(step.get("d", 1) / 64)
                 for sub in subs.values():
@@ -425,6 +437,8 @@ def run_case(case: dict) -> CaseResult:
     if any(sum(len(v) for v in st_.get("images", {}).values()) for st_ in subs.values()):
         classes.add("camera_partial_at_end")
     res.classes = sorted(classes | ({"noise"} if case.get("noise") else set()))
+    if late and not res.violations:
+        res.violations.append(Violation(ID, "c17:callback-not-at-arrival", late[0]))
     res.nontrivial = bool(classes & {"camera_interleaved", "unsub_then_message", "va_start", "unsub_in_callback"})
     res.info = {"subscriptions": len(exp), "callbacks": sum(len(v) for v in got.values())}
     s.close()
@@ -636,8 +650,8 @@ def strategy(tier):
     @st.composite
     def with_misalign(draw):
         c = draw(base)
-        if not c.get("noise") and draw(st.integers(0, 3)) == 0:
-            c = {**c, "misalign": draw(st.sampled_from([1, 2, 3, 5, 9]))}
+        if draw(st.integers(0, 3)) == 0:
+            c = {**c, "misalign": draw(st.one_of(st.sampled_from([1, 2, 3, 5, 9]), st.lists(st.sampled_from([0, 1, 2, 3, 4, 5, 9, 20]), min_size=2, max_size=4)))}
         return c
 
     return with_misalign()
@@ -646,9 +660,16 @@ def strategy(tier):
 def enumerated(tier):
     cam = lambda k, d, done: {"t": "camera", "key": k, "data": d, "done": done}  # noqa: E731
     stream = [cam(1, "aa" * 40, False), cam(2, "bb" * 30, False), cam(1, "cc" * 50, True), {"t": "connfree", "free": 1, "limit": 3}, cam(2, "dd" * 20, True), cam(1, "ee", True)]
-    for mis in (1, 2, 3, 7):
+    for mis in (1, 2, 3, 7, [5, 2], [9, 1, 4, 2], [3, 1], [20, 2, 0, 1]):
         for n in (1, 2, 3):
-            yield {"noise": False, "misalign": mis, "steps": [{"op": "sub", "id": "s0", "kind": "states"}, {"op": "sub", "id": "s1", "kind": "connfree"}] + [{"op": "chunk", "msgs": stream[i:i + n]} for i in range(0, len(stream), n)]}
+            for noise in (False, True):
+                yield {"noise": noise, "misalign": mis, "steps": [{"op": "sub", "id": "s0", "kind": "states"}, {"op": "sub", "id": "s1", "kind": "connfree"}] + [{"op": "chunk", "msgs": stream[i:i + n]} for i in range(0, len(stream), n)]}
+    # a large frame split behind its header whose completing read ends inside the next header, then small frames
+    big = {"t": "state", "cls": "TextSensorStateResponse", "spec": {"key": 1, "state": "x" * 90, "missing_state": False}}
+    small = [{"t": "state", "cls": "SwitchStateResponse", "spec": {"key": k, "state": True}} for k in (2, 3, 4, 5)]
+    for mis in ([5, 2, 0, 0, 0], [9, 1, 0, 0, 0], [4, 2, 1, 0, 0], [20, 1, 2, 1, 0]):
+        for noise in (False, True):
+            yield {"noise": noise, "misalign": mis, "steps": [{"op": "sub", "id": "s0", "kind": "states"}, {"op": "chunk", "msgs": [small[0]]}, {"op": "chunk", "msgs": [big]}] + [{"op": "chunk", "msgs": [m]} for m in small[1:]] + [{"op": "chunk", "msgs": [small[0]]}]}
     stC = state_classes()
     # every state type once with default and one non-default message, after subscribe_states
     msgs = []
